@@ -107,6 +107,10 @@ func genEdits(r *rand.Rand, g *SpecGen, marker string, nonEmpty bool) specs.Cont
 			n := 1 + r.Intn(2)
 			for i := 0; i < n; i++ {
 				m := &specs.Mount{HostPath: str("mountHost", "/host/"+marker), ContainerPath: fmt.Sprintf("/mnt/%s/%d", marker, i)}
+				if chance(r, 15) {
+					// valid, but not in its shortest spelling
+					m.ContainerPath += pickStr(r, "/", "/.", "//", fmt.Sprintf("/../%d", i), "/./")
+				}
 				if chance(r, 50) {
 					m.Options = []string{"ro", str("mountOpt", "nosuid")}[:1+r.Intn(2)]
 				}
